@@ -916,6 +916,10 @@ class Exec(object):
             return self.branch(z3.And(idx >= 0, idx < n), st,
                                lambda s: self.val(wrap(o.t[idx], o.etype), s),
                                lambda s: self.exc(IndexError, s))
+        if isinstance(o, VOpaque) and isinstance(i, VInt) and const_int(i.t) is not None and \
+                ('%s_item%d' % (o.cls, const_int(i.t))) in self.reg.specfuns:
+            sf = self.reg.specfuns['%s_item%d' % (o.cls, const_int(i.t))]
+            return self.val(wrap(sf.apply(o.ident), sf.restype), st)
         if isinstance(o, VPy) and isinstance(o.obj, (tuple, list, dict)):
             k = i.obj if isinstance(i, VPy) else (const_int(i.t) if isinstance(i, VInt) else const_str(i.t))
             try:
